@@ -11,9 +11,9 @@ def Op.mayWrite (s : State) (l : Nat) : Op → Prop
   | .layerSet l' _ _ => l' = l
   | .setCells l' _ _ => l' = l
   | .setFrom l' _ _ => l' = l
-  | .modifyCells l' _ _ => l' = l
+  | .modifyCells l' _ _ _ => l' = l
   | .modifyT l' _ _ _ => l' = l
-  | .modifyU l' _ _ _ => l' = l
+  | .modifyU l' _ _ _ _ => l' = l
   | .modifyCell l' _ _ => l' = l
   | .modifyCellU l' _ _ _ => l' = l
   | .cellSet n _ _ => s.named? n = some l
@@ -32,12 +32,13 @@ theorem value_heap_upd_other (s : State) (a : Nat) (x : Arr) (l : Nat) (c : Coor
   show upd s.heap a x (s.layers l).data c = _
   rw [upd_other _ _ _ _ h]
 
-theorem value_cellAttrWrite {s : State} (hw : WF s) {l : Nat} (hl : l < s.nLayers) (n : String)
+theorem value_cellAttrWrite {s : State} (hw : WF s) (hi : s.impl = .new) {l : Nat} (hl : l < s.nLayers) (n : String)
     (hn : s.named? n ≠ some l) (c : Coord) (v : Int) (c' : Coord) :
     (cellAttrWrite s n c v).value l c' = s.value l c' := by
   unfold cellAttrWrite
   split
   · next lid hlid =>
+    rw [hw.descr_eq hi n] at hlid
     apply value_heap_upd_other
     intro he
     have := hw.data_inj l lid hl (hw.att_lt n lid hlid) he
@@ -50,7 +51,7 @@ theorem value_writeEmpty {s : State} (hw : WF s) {l : Nat} (hl : l < s.nLayers)
     (writeEmpty s c v).value l c' = s.value l c' := by
   unfold writeEmpty
   split
-  · next hi => exact value_cellAttrWrite hw hl "empty" (fun h => hn ⟨hi, h⟩) c v c'
+  · next hi => exact value_cellAttrWrite hw hi hl "empty" (fun h => hn ⟨hi, h⟩) c v c'
   · next hi =>
     apply value_heap_upd_other
     exact hw.legacy_data hi l hl
@@ -68,7 +69,7 @@ theorem value_afterLeave {s : State} (hw : WF s) {l : Nat} (hl : l < s.nLayers)
 
 /-- changing only the agents changes no layer value and none of the tables -/
 theorem withAgents_wf {s : State} (hw : WF s) (ag : List (Nat × Coord)) : WF { s with agents := ag } :=
-  hw.of_sameShape ⟨rfl, rfl, rfl, rfl, rfl, rfl, rfl, rfl, rfl⟩
+  hw.of_sameShape ⟨rfl, rfl, rfl, rfl, rfl, rfl, rfl, rfl, rfl, rfl⟩
 
 theorem value_setCells {s : State} (hw : WF s) {l : Nat} (hl : l < s.nLayers) (l' : Nat) (v : Int)
     (cond : Option (Int → Bool)) (hne : l' ≠ l) (c : Coord) : (setCells s l' v cond).1.value l c = s.value l c := by
@@ -150,11 +151,12 @@ theorem value_stable {s : State} (hw : WF s) {l : Nat} (hl : l < s.nLayers) (op 
     simp only [step]; unfold cellSet
     have hn : s.named? n ≠ some l := hno
     split
-    · split
+    · next hi =>
+      split
       · rfl
       · split
         · rfl
-        · exact value_cellAttrWrite hw hl n hn c' _ c
+        · exact value_cellAttrWrite hw hi hl n hn c' _ c
     · split
       · rfl
       · next lid hlid =>
@@ -184,16 +186,20 @@ theorem value_stable {s : State} (hw : WF s) {l : Nat} (hl : l < s.nLayers) (op 
   | setCells l' w cond =>
     have hne : l' ≠ l := hno
     cases w with
-    | raw v => exact value_setCells hw hl l' v cond hne c
+    | raw v => exact vecGuard_fst (P := fun t => t.value l c = s.value l c) _ _ _ _ (value_setCells hw hl l' v cond hne c) rfl
     | py x =>
-      simp only [step]; unfold setCellsV
+      simp only [step]
+      refine vecGuard_fst (P := fun t => t.value l c = s.value l c) _ _ _ _ ?_ rfl
+      unfold setCellsV
       split
       · rfl
       · split
         · rfl
         · exact value_setCells hw hl l' _ cond hne c
-  | modifyCells l' f cond =>
-    simp only [step]; unfold modifyCells
+  | modifyCells l' vec f cond =>
+    simp only [step]
+    refine vecGuard_fst (P := fun t => t.value l c = s.value l c) _ _ _ _ ?_ rfl
+    unfold modifyCells
     split
     · rfl
     · next L hL =>
@@ -216,11 +222,16 @@ theorem value_stable {s : State} (hw : WF s) {l : Nat} (hl : l < s.nLayers) (op 
         · rfl
         · split
           · rfl
-          · have hne : l' ≠ l := hno
-            rw [value_upd hw hl' hl, if_neg (fun e => hne e.symm)]
-  | modifyT l' f cond rd => exact value_modifyCellsT hw hl l' f cond rd hno c
-  | modifyU l' op x cond =>
-    simp only [step]; unfold modifyU
+          · split
+            · rfl
+            · have hne : l' ≠ l := hno
+              rw [value_upd hw hl' hl, if_neg (fun e => hne e.symm)]
+  | modifyT l' f cond rd =>
+    exact vecGuard_fst (P := fun t => t.value l c = s.value l c) _ _ _ _ (value_modifyCellsT hw hl l' f cond rd hno c) rfl
+  | modifyU l' vec op x cond =>
+    simp only [step]
+    refine vecGuard_fst (P := fun t => t.value l c = s.value l c) _ _ _ _ ?_ rfl
+    unfold modifyU
     split
     · rfl
     · split
@@ -264,6 +275,9 @@ theorem value_stable {s : State} (hw : WF s) {l : Nat} (hl : l < s.nLayers) (op 
           simp [State.value, upd, h1, h2]
   | grab hd l' =>
     simp only [step]; unfold grab
+    split <;> rfl
+  | grabMask hd =>
+    simp only [step]; unfold grabMask
     split <;> rfl
   | hget hd c' => rfl
   | hset hd c' v =>
@@ -379,17 +393,22 @@ theorem nLayers_step (s : State) (op : Op) : s.nLayers ≤ (step s op).1.nLayers
   | cellGet2 l c => exact Nat.le_refl _
   | setCells l w cond =>
     cases w with
-    | raw v => exact Nat.le_of_eq (sameShape_setCells ..).nLayers.symm
-    | py x => exact Nat.le_of_eq (sameShape_setCellsV ..).nLayers.symm
-  | modifyCells l f cond =>
-    simp only [step]; unfold modifyCells
+    | raw v => exact vecGuard_fst (P := fun t => s.nLayers ≤ t.nLayers) _ _ _ _ (Nat.le_of_eq (sameShape_setCells ..).nLayers.symm) (Nat.le_refl _)
+    | py x => exact vecGuard_fst (P := fun t => s.nLayers ≤ t.nLayers) _ _ _ _ (Nat.le_of_eq (sameShape_setCellsV ..).nLayers.symm) (Nat.le_refl _)
+  | modifyCells l vec f cond =>
+    simp only [step]
+    refine vecGuard_fst (P := fun t => s.nLayers ≤ t.nLayers) _ _ _ _ ?_ (Nat.le_refl _)
+    unfold modifyCells
     split
     · exact Nat.le_refl _
     · split <;> exact Nat.le_refl _
   | setFrom l hd cond => exact Nat.le_of_eq (sameShape_setFrom ..).nLayers.symm
-  | modifyT l f cond rd => exact Nat.le_of_eq (shape_modifyCellsT s l f cond rd).1.symm
-  | modifyU l op x cond =>
-    simp only [step]; unfold modifyU
+  | modifyT l f cond rd =>
+    exact vecGuard_fst (P := fun t => s.nLayers ≤ t.nLayers) _ _ _ _ (Nat.le_of_eq (shape_modifyCellsT s l f cond rd).1.symm) (Nat.le_refl _)
+  | modifyU l vec op x cond =>
+    simp only [step]
+    refine vecGuard_fst (P := fun t => s.nLayers ≤ t.nLayers) _ _ _ _ ?_ (Nat.le_refl _)
+    unfold modifyU
     split
     · exact Nat.le_refl _
     · split
@@ -405,6 +424,7 @@ theorem nLayers_step (s : State) (op : Op) : s.nLayers ≤ (step s op).1.nLayers
       · exact Nat.le_refl _
       · split <;> simp
   | grab hd l => simp only [step]; unfold grab; split <;> exact Nat.le_refl _
+  | grabMask hd => simp only [step]; unfold grabMask; split <;> exact Nat.le_refl _
   | hget hd c => exact Nat.le_refl _
   | hset hd c v => exact Nat.le_of_eq (sameShape_hset ..).nLayers.symm
   | hdump hd => exact Nat.le_refl _
@@ -478,19 +498,24 @@ theorem shapes_run (t : State) (os : List Op) : (run t os).1.dims = t.dims ∧
       | cellGet2 l c => exact ⟨rfl, fun _ _ => rfl⟩
       | setCells l w cond =>
         cases w with
-        | raw v => exact ⟨(sameShape_setCells ..).dims, fun k _ => congrArg (fun f => (f k).dims) (sameShape_setCells ..).layers⟩
-        | py x => exact ⟨(sameShape_setCellsV ..).dims, fun k _ => congrArg (fun f => (f k).dims) (sameShape_setCellsV ..).layers⟩
+        | raw v => exact vecGuard_fst (P := fun u => u.dims = t.dims ∧ ∀ k, k < t.nLayers → (u.layers k).dims = (t.layers k).dims) _ _ _ _ ⟨(sameShape_setCells ..).dims, fun k _ => congrArg (fun f => (f k).dims) (sameShape_setCells ..).layers⟩ ⟨rfl, fun _ _ => rfl⟩
+        | py x => exact vecGuard_fst (P := fun u => u.dims = t.dims ∧ ∀ k, k < t.nLayers → (u.layers k).dims = (t.layers k).dims) _ _ _ _ ⟨(sameShape_setCellsV ..).dims, fun k _ => congrArg (fun f => (f k).dims) (sameShape_setCellsV ..).layers⟩ ⟨rfl, fun _ _ => rfl⟩
       | setFrom l hd cond => exact ⟨(sameShape_setFrom ..).dims, fun k _ => congrArg (fun f => (f k).dims) (sameShape_setFrom ..).layers⟩
-      | modifyT l f cond rd => exact ⟨(shape_modifyCellsT t l f cond rd).2.1, fun k _ => (shape_modifyCellsT t l f cond rd).2.2 k⟩
-      | modifyU l op x cond =>
-        simp only [step]; unfold modifyU
+      | modifyT l f cond rd =>
+        exact vecGuard_fst (P := fun u => u.dims = t.dims ∧ ∀ k, k < t.nLayers → (u.layers k).dims = (t.layers k).dims) _ _ _ _ ⟨(shape_modifyCellsT t l f cond rd).2.1, fun k _ => (shape_modifyCellsT t l f cond rd).2.2 k⟩ ⟨rfl, fun _ _ => rfl⟩
+      | modifyU l vec op x cond =>
+        simp only [step]
+        refine vecGuard_fst (P := fun u => u.dims = t.dims ∧ ∀ k, k < t.nLayers → (u.layers k).dims = (t.layers k).dims) _ _ _ _ ?_ ⟨rfl, fun _ _ => rfl⟩
+        unfold modifyU
         split
         · exact ⟨rfl, fun _ _ => rfl⟩
         · split
           · exact ⟨rfl, fun _ _ => rfl⟩
           · exact ⟨(shape_modifyCellsT ..).2.1, fun k _ => (shape_modifyCellsT ..).2.2 k⟩
-      | modifyCells l f cond =>
-        simp only [step]; unfold modifyCells
+      | modifyCells l vec f cond =>
+        simp only [step]
+        refine vecGuard_fst (P := fun u => u.dims = t.dims ∧ ∀ k, k < t.nLayers → (u.layers k).dims = (t.layers k).dims) _ _ _ _ ?_ ⟨rfl, fun _ _ => rfl⟩
+        unfold modifyCells
         split
         · exact ⟨rfl, fun _ _ => rfl⟩
         · next L hL =>
@@ -514,6 +539,7 @@ theorem shapes_run (t : State) (os : List Op) : (run t os).1.dims = t.dims ∧
             · exact ⟨rfl, fun _ _ => rfl⟩
             · exact ⟨rfl, fun k hk => by simp [upd, Nat.ne_of_lt hk]⟩
       | grab hd l => simp only [step]; unfold grab; split <;> exact ⟨rfl, fun _ _ => rfl⟩
+      | grabMask hd => simp only [step]; unfold grabMask; split <;> exact ⟨rfl, fun _ _ => rfl⟩
       | hget hd c => exact ⟨rfl, fun _ _ => rfl⟩
       | hset hd c v => exact ⟨(sameShape_hset ..).dims, fun k _ => congrArg (fun f => (f k).dims) (sameShape_hset ..).layers⟩
       | hdump hd => exact ⟨rfl, fun _ _ => rfl⟩
@@ -594,7 +620,23 @@ theorem step_gattrs (s : State) (op : Op) :
     ∃ m, op = .gridSet m ∧ s.named? m = none ∧ (step s op).1.gattrs = m :: s.gattrs := by
   cases op
   case cellSet n c w => exact Or.inl (cellSet_gattrs ..)
-  case setCells l w cond => cases w <;> simp only [step] <;> first | exact Or.inl (setCells_gattrs ..) | exact Or.inl (setCellsV_gattrs ..)
+  case setCells l w cond =>
+    cases w <;> simp only [step] <;> left <;>
+      first
+      | exact vecGuard_fst (P := fun t => t.gattrs = s.gattrs) _ _ _ _ (setCells_gattrs ..) rfl
+      | exact vecGuard_fst (P := fun t => t.gattrs = s.gattrs) _ _ _ _ (setCellsV_gattrs ..) rfl
+  case modifyCells l vec f cond =>
+    left; simp only [step]
+    refine vecGuard_fst (P := fun t => t.gattrs = s.gattrs) _ _ _ _ ?_ rfl
+    (unfold modifyCells; repeat' split) <;> rfl
+  case modifyT l f cond rd =>
+    left; simp only [step]
+    refine vecGuard_fst (P := fun t => t.gattrs = s.gattrs) _ _ _ _ ?_ rfl
+    (unfold modifyCellsT; repeat' split) <;> rfl
+  case modifyU l vec op x cond =>
+    left; simp only [step]
+    refine vecGuard_fst (P := fun t => t.gattrs = s.gattrs) _ _ _ _ ?_ rfl
+    (unfold modifyU modifyCellsT; repeat' split) <;> rfl
   case gridSet m =>
     simp only [step]; unfold gridSet
     split
@@ -626,6 +668,7 @@ theorem step_gattrs (s : State) (op : Op) :
     | (unfold modifyCell; repeat' split) <;> rfl
     | (unfold modifyCellU; repeat' split) <;> first | rfl | exact modifyCell_gattrs ..
     | (unfold grab; repeat' split) <;> rfl
+    | (unfold grabMask; repeat' split) <;> rfl
     | (unfold fromData; repeat' split) <;> rfl
     | (unfold hset; repeat' split) <;> rfl
     | (unfold nbhdMask; repeat' split) <;> rfl
